@@ -450,16 +450,16 @@ theorem step_preserves {s s' : St} {a : Action} (h : OpsInv s) (hs : step s a = 
             (fun _ => ⟨[], by simp⟩) (fun hr => by simp at hr)
         | true =>
           rw [tryEnqueue_closed (.waiter d) hcl]
-          have := h.done.begin hdlt
-            (match s.busy with | none => DPc.returned | some g => DPc.drainWaiting g) s.accepted []
-            (fun x hx => by simpa using hx)
-            (fun hw => by split at hw <;> cases hw)
-            (fun hr => by
-              split at hr
-              · rename_i hb
-                rw [h.executed_eq_of_idle hb]; exact fun x hx => hx
-              · cases hr)
-          simpa [setAt] using this
+          cases hb : s.busy with
+          | none =>
+            have := h.done.begin hdlt DPc.returned s.accepted []
+              (fun x hx => by simpa using hx) (fun hw => by cases hw)
+              (fun _ => by rw [h.executed_eq_of_idle hb]; exact fun x hx => hx)
+            simpa [setAt, hb] using this
+          | some g =>
+            have := h.done.begin hdlt (DPc.drainWaiting g) s.accepted []
+              (fun x hx => by simpa using hx) (fun hw => by cases hw) (fun hr => by cases hr)
+            simpa [setAt, hb] using this
     · cases hs
   | doneWake d =>
     simp only [step] at hs
